@@ -392,6 +392,7 @@ func main() {
 	}
 	addPeer(r, &scs)
 	addCancel(r, &scs)
+	addComponent(r, &scs)
 	addObserve(r, &scs)
 	addStream(r, &scs)
 	sum := mcx.Explore(r, scs, mcx.Config{Wall: ev.Pick(r, 4*time.Minute, 30*time.Minute)})
